@@ -262,8 +262,10 @@ def write_replay(prop, b, scen_by_name, workdir):
 
 
 def write_evidence(prop, doc):
-    os.makedirs(os.path.join(ROOT, "evidence"), exist_ok=True)
-    with open(os.path.join(ROOT, "evidence", prop + ".json"), "w") as f:
+    # (development runs against a deliberately changed /repo keep their evidence out of the tree)
+    d = os.environ.get("VERIF_EVIDENCE_DIR") or os.path.join(ROOT, "evidence")
+    os.makedirs(d, exist_ok=True)
+    with open(os.path.join(d, prop + ".json"), "w") as f:
         json.dump(doc, f, indent=1)
 
 
